@@ -515,6 +515,32 @@ pub fn run(tier: Tier) -> i32 {
         }
     }
 
+    // variables the shell maintains itself or that carry attributes: `$((v))` and `$(($v))` agree
+    for (name, script) in [
+        ("LINENO", "args $((LINENO)) $(($LINENO))".to_string()),
+        ("LINENO", "\n\nargs $((LINENO+1)) $(($LINENO+1))".to_string()),
+        ("LINENO", "f() {\nargs $((LINENO)) $(($LINENO))\n}\nf".to_string()),
+        ("OPTIND", "args $((OPTIND)) $(($OPTIND))".to_string()),
+        ("OPTIND", "getopts ab o -a -b; args $((OPTIND)) $(($OPTIND))".to_string()),
+        ("PPID", "args $((PPID)) $(($PPID))".to_string()),
+        ("readonly", "readonly x=010; args $((x)) $(($x))".to_string()),
+        ("exported", "export x=0x1F; args $((x)) $(($x))".to_string()),
+        ("local", "x=1; f() { typeset x=12; args $((x)) $(($x)); }; f".to_string()),
+        ("temporary", "x=1; f() { args $((x)) $(($x)); }; x=7 f".to_string()),
+        ("positional-count", "set -- a b c; args $((${#}+0)) $(($#+0))".to_string()),
+    ] {
+        let r = vsh::run_once(&Setup::script(&script), &Default::default());
+        spell_n += 1;
+        let tr = r.all_trace();
+        let same = tr.len() == 1 && {
+            let f: Vec<&str> = tr[0].trim_start_matches("args[").trim_end_matches(']').split("][").collect();
+            f.len() == 2 && f[0] == f[1] && f[0].parse::<i64>().is_ok()
+        };
+        if !same {
+            ctx.violation(&format!("c03:variable-vs-expansion:{name}"), &format!("{script:?}: {tr:?} — $((v)) and $(($v)) differ; stderr={:?}", r.stderr), json!({"script": script}));
+        }
+    }
+
     // assignment operators update the variable the shell would assign to, wherever the expansion
     // is evaluated: every assignment form x every context (top level, function on a global,
     // function on its own local, function on the caller's local, subshell, loop, read-only)
@@ -662,7 +688,7 @@ pub fn run(tier: Tier) -> i32 {
     let cov = json!({
         "evaluations": evals,
         "distinct_nontrivial": counters.errors.load(Relaxed) + (d1.len() as u64),
-        "rule": "expression trees of depth <= 2 (thorough: a pruned depth 3) over all 18 binary value operators, 11 assignment forms, 4 prefix operators, ++/-- prefix and postfix, ?: on boundary operands {0,1,2,3,5,61..65,2^31,2^32+1,2^62,2^63-1,2^63,-1,-(2^63-1), variables a,b (5 environments), unset u}, every tree printed with minimal parentheses and fully parenthesised; exact i128 evaluation with C semantics (value must be exact, overflow / division by zero / MIN%-1 / bad shift counts / shifting a negative or into the sign bit must be errors; short-circuit operands must leave no trace); all pairs of binary operators in both association shapes; $((x)) vs $(($x)) for decimal/octal/hex/signed spellings; 8 assignment forms x 10 shell contexts (top level, function on a global / own local / caller's local, subshell, loop, nested in an assignment, read-only); every string of length <= 4 over 26 token characters must not panic (length <= 2/3 also through the whole shell); 16 expression templates with one or two holes x all 128 ASCII characters and representatives of every Unicode class (white space of 2 and 3 bytes, non-ASCII digits and letters, combining, zero-width, 4-byte) at API level and through the shell: no panic, and ASCII blanks between tokens do not change the value. Non-trivial counted = depth-1 trees + evaluations whose exact result is an error.",
+        "rule": "expression trees of depth <= 2 (thorough: a pruned depth 3) over all 18 binary value operators, 11 assignment forms, 4 prefix operators, ++/-- prefix and postfix, ?: on boundary operands {0,1,2,3,5,61..65,2^31,2^32+1,2^62,2^63-1,2^63,-1,-(2^63-1), variables a,b (5 environments), unset u}, every tree printed with minimal parentheses and fully parenthesised; exact i128 evaluation with C semantics (value must be exact, overflow / division by zero / MIN%-1 / bad shift counts / shifting a negative or into the sign bit must be errors; short-circuit operands must leave no trace); all pairs of binary operators in both association shapes; $((x)) vs $(($x)) for decimal/octal/hex/signed spellings and for variables the shell maintains or that carry attributes (LINENO, OPTIND, PPID, read-only, exported, local, temporary); 8 assignment forms x 10 shell contexts (top level, function on a global / own local / caller's local, subshell, loop, nested in an assignment, read-only); every string of length <= 4 over 26 token characters must not panic (length <= 2/3 also through the whole shell); 16 expression templates with one or two holes x all 128 ASCII characters and representatives of every Unicode class (white space of 2 and 3 bytes, non-ASCII digits and letters, combining, zero-width, 4-byte) at API level and through the shell: no panic, and ASCII blanks between tokens do not change the value. Non-trivial counted = depth-1 trees + evaluations whose exact result is an error.",
         "samples": samples.take(),
         "expression_evaluations": counters.evals.load(Relaxed),
         "skipped_unspecified_sequence_point_or_negative_right_shift": counters.unspec.load(Relaxed),
